@@ -27,7 +27,17 @@ def tolerated(case, i, impl, model):
 
 def gen_cases(rng, tier):
     n = 400 if tier == "thorough" else 40
-    return [_hist.gen_history_case(rng, rng.randint(8, 26)) for _ in range(n)]
+    cases = [_hist.gen_history_case(rng, rng.randint(8, 26)) for _ in range(n)]
+    # currency declarations and money-converter updates that are rejected
+    from props import C08, C11
+    for c in C08.gen_cases(rng, tier):
+        if "user-currencies" in c["tags"]:
+            c["delegate"] = "C08"
+            cases.append(c)
+    for c in C11.gen_cases(rng, "quick")[:10 if tier != "thorough" else 40]:
+        c["delegate"] = "C11"
+        cases.append(c)
+    return cases
 
 
 def search_cases(rng, focus, broken):
@@ -35,10 +45,21 @@ def search_cases(rng, focus, broken):
 
 
 def oracle(case, impl):
+    if case.get("delegate") == "C08":
+        from props import C08
+        return [f for f in C08.oracle(case, impl) if f["site"] == "cur:reject-trace"]
+    if case.get("delegate") == "C11":
+        from props import C11
+        # a rejected update must leave the table (dumped after every update) as it was
+        return [f for f in C11.oracle(case, impl)
+                if f["site"] in ("conv:table", "conv:update-accepted")]
     return _hist.directory_oracle(case, impl, check_trace=True, check_dir=False)
 
 
 def nontrivial_key(case, impl):
+    if case.get("delegate"):
+        return {(case["delegate"], tuple(o[:4])) for o, out in zip(case["ops"], impl)
+                if o[0] in ("cur_new", "mc_update") and out.startswith("err")}
     kinds = sorted(m["kind"] for m in case["meta"] if "expect" in m)
     if not any(k not in ("base-class",) for k in kinds):
         return None
